@@ -211,6 +211,7 @@ func (pm *vfProtoModel) expect(c *proto.Cmd) func(r *proto.Reply) string {
 			cp := *e
 			before = &cp
 		}
+		wasUncertain := pm.uncertain[key]
 		sr := pm.m.Set(key, c.Val, c.Flags, c.Rev)
 		if c.NoReply && pm.bodyBig > 0 && len(c.Val) > pm.bodyBig {
 			if pm.uncertain == nil {
@@ -231,6 +232,13 @@ func (pm *vfProtoModel) expect(c *proto.Cmd) func(r *proto.Reply) string {
 					delete(pm.m.M, key)
 				} else {
 					pm.m.M[key] = before
+				}
+				if wasUncertain {
+					// the refused command settles nothing: what an earlier noreply store did is still unknown
+					if pm.uncertain == nil {
+						pm.uncertain = map[string]bool{}
+					}
+					pm.uncertain[key] = true
 				}
 				return ""
 			}
